@@ -69,13 +69,40 @@ def chart(watchdog=False):
     return sc
 
 
-CODES = [interp_mod.Interpreter._queue_event.__code__, interp_mod.Interpreter._select_event.__code__,
-         interp_mod._KeyifyList.__getitem__.__code__, interp_mod.Interpreter.execute_once.__code__,
-         interp_mod.Interpreter.queue.__code__,
-         runner_mod.AsyncRunner.execute.__code__, runner_mod.AsyncRunner._run.__code__, runner_mod.AsyncRunner.pause.__code__,
-         runner_mod.AsyncRunner.unpause.__code__, runner_mod.AsyncRunner.stop.__code__, runner_mod.AsyncRunner.wait.__code__,
-         runner_mod.AsyncRunner.start.__code__]
-QUEUE_CODES = CODES[:5]      # every piece of Interpreter code that touches the event queues (execute_once peeks, then pops)
+def _codes(owner, names):
+    """code objects of the named functions that exist in this tree (private helpers may come and go)"""
+    out = []
+    for n in names:
+        f = owner
+        for part in n.split('.'):
+            f = getattr(f, part, None)
+            if f is None:
+                break
+        if f is not None and hasattr(f, '__code__'):
+            out.append(f.__code__)
+    return out
+
+
+_QUEUE_FUNCS = _codes(interp_mod, ['Interpreter._queue_event', 'Interpreter._select_event', '_KeyifyList.__getitem__',
+                                   'Interpreter.execute_once', 'Interpreter.queue', 'Interpreter._consume_event'])
+CODES = _QUEUE_FUNCS + _codes(runner_mod, ['AsyncRunner.execute', 'AsyncRunner._run', 'AsyncRunner.pause', 'AsyncRunner.unpause',
+                                           'AsyncRunner.stop', 'AsyncRunner.wait', 'AsyncRunner.start'])
+
+
+def _nested(code):
+    """code objects defined inside `code` (lambdas, comprehensions): key functions called back from C code are
+    pre-emption points too"""
+    out = []
+    for c in code.co_consts:
+        if hasattr(c, 'co_code'):
+            out.append(c)
+            out.extend(_nested(c))
+    return out
+
+
+QUEUE_CODES = list(_QUEUE_FUNCS)      # every piece of Interpreter code that touches the event queues (execute_once peeks, then pops)
+QUEUE_CODES = QUEUE_CODES + [n for c in QUEUE_CODES for n in _nested(c)]
+CODES = CODES + [n for c in CODES for n in _nested(c) if n not in CODES]
 
 
 def run(ch, tier):
